@@ -133,7 +133,7 @@ Lemma si_no_lost_update_l : forall s a b ta tb k s',
   si_exec a OCommit s = (ROk, s') ->
   fst (si_exec b OCommit s') = RErr.
 Proof.
-  intros s a b ta tb k s' [Hw1 Hw2] Hab Ha Hb Hka Hkb Hex.
+  intros s a b ta tb k s' Hw1 Hab Ha Hb Hka Hkb Hex.
   unfold si_exec in Hex. rewrite Ha in Hex. destruct (conflict ta s); [discriminate|].
   injection Hex as <-. unfold si_exec. cbn [hs]. unfold set_h. rewrite nth_set_nth_other by exact Hab. rewrite Hb.
   assert (Hc : conflict tb (mkSI (merge (wkeys ta) (view ta) (committed s)) (stamp (wkeys ta) (clock s + 1) (lastw s))
@@ -145,6 +145,67 @@ Proof.
     apply Z.ltb_lt. specialize (Hw1 b tb Hb). lia. }
   rewrite Hc. reflexivity.
 Qed.
+
+(* every state a schedule reaches is well formed (no transaction started in the future) *)
+Lemma nth_set_nth_inv : forall {A} (l : list A) i j x y,
+  nth_error (set_nth i x l) j = Some y -> (i = j /\ y = x) \/ nth_error l j = Some y.
+Proof.
+  intros A l. induction l as [|z l IH]; intros i j x y H.
+  - destruct i; cbn [set_nth] in H; destruct j; discriminate.
+  - destruct i, j; cbn [set_nth nth_error] in *.
+    + injection H as <-. left. split; reflexivity.
+    + right. exact H.
+    + right. exact H.
+    + destruct (IH i j x y H) as [[-> ->]|H']; [left; split; reflexivity | right; exact H'].
+Qed.
+
+Lemma si_wf_init : forall nh, si_wf (si_init nh).
+Proof.
+  intros nh h tx H. unfold si_init in H. cbn [hs] in H. apply nth_error_In in H. apply repeat_spec in H. discriminate.
+Qed.
+
+Lemma si_wf_exec : forall s h o, si_wf s -> si_wf (snd (si_exec h o s)).
+Proof.
+  intros s h o Hw. unfold si_exec.
+  destruct (nth_error (hs s) h) as [[tx|]|] eqn:E; [| |exact Hw].
+  - destruct o; cbn [snd]; try exact Hw.
+    + destruct (dml_apply (OIns rows) (view tx)) as [[[r t'] ks]|]; cbn [snd]; [|exact Hw].
+      intros h0 tx0 H0. cbn [hs clock] in *. unfold set_h in H0. destruct (nth_set_nth_inv _ _ _ _ _ H0) as [[_ Hx]|Hx].
+      * injection Hx as ->. cbn [start]. apply (Hw h tx E).
+      * apply (Hw h0 tx0 Hx).
+    + destruct (dml_apply (OUpd sc v w) (view tx)) as [[[r t'] ks]|]; cbn [snd]; [|exact Hw].
+      intros h0 tx0 H0. cbn [hs clock] in *. unfold set_h in H0. destruct (nth_set_nth_inv _ _ _ _ _ H0) as [[_ Hx]|Hx].
+      * injection Hx as ->. cbn [start]. apply (Hw h tx E).
+      * apply (Hw h0 tx0 Hx).
+    + destruct (dml_apply (ODel w) (view tx)) as [[[r t'] ks]|]; cbn [snd]; [|exact Hw].
+      intros h0 tx0 H0. cbn [hs clock] in *. unfold set_h in H0. destruct (nth_set_nth_inv _ _ _ _ _ H0) as [[_ Hx]|Hx].
+      * injection Hx as ->. cbn [start]. apply (Hw h tx E).
+      * apply (Hw h0 tx0 Hx).
+    + destruct (conflict tx s); cbn [snd]; intros h0 tx0 H0; cbn [hs clock] in *; unfold set_h in H0;
+        destruct (nth_set_nth_inv _ _ _ _ _ H0) as [[_ Hx]|Hx]; try discriminate; specialize (Hw h0 tx0 Hx); lia.
+    + intros h0 tx0 H0; cbn [hs clock] in *; unfold set_h in H0;
+        destruct (nth_set_nth_inv _ _ _ _ _ H0) as [[_ Hx]|Hx]; try discriminate; apply (Hw h0 tx0 Hx).
+    + intros h0 tx0 H0; cbn [hs clock] in *; unfold set_h in H0;
+        destruct (nth_set_nth_inv _ _ _ _ _ H0) as [[_ Hx]|Hx]; try discriminate; apply (Hw h0 tx0 Hx).
+  - destruct o; cbn [snd]; try exact Hw.
+    + destruct (dml_apply (OIns rows) (committed s)) as [[[r t'] ks]|]; cbn [snd]; [|exact Hw].
+      intros h0 tx0 H0. cbn [hs clock] in *. specialize (Hw h0 tx0 H0). lia.
+    + destruct (dml_apply (OUpd sc v w) (committed s)) as [[[r t'] ks]|]; cbn [snd]; [|exact Hw].
+      intros h0 tx0 H0. cbn [hs clock] in *. specialize (Hw h0 tx0 H0). lia.
+    + destruct (dml_apply (ODel w) (committed s)) as [[[r t'] ks]|]; cbn [snd]; [|exact Hw].
+      intros h0 tx0 H0. cbn [hs clock] in *. specialize (Hw h0 tx0 H0). lia.
+    + intros h0 tx0 H0. cbn [hs clock] in *. unfold set_h in H0. destruct (nth_set_nth_inv _ _ _ _ _ H0) as [[_ Hx]|Hx].
+      * injection Hx as ->. cbn [start]. lia.
+      * apply (Hw h0 tx0 Hx).
+Qed.
+
+Lemma si_wf_run : forall sched s, si_wf s -> si_wf (si_run sched s).
+Proof.
+  induction sched as [|[h o] sched IH]; intros s Hw; [exact Hw|]. cbn [si_run]. apply IH. apply si_wf_exec. exact Hw.
+Qed.
+
+Lemma si_wf_reachable_l : forall nh sched, si_wf (si_run sched (si_init nh)).
+Proof. intros nh sched. apply si_wf_run. apply si_wf_init. Qed.
 
 (* ------------------------------------------------------------------ src/mvcc/version.rs *)
 Lemma visible_rule_sound_l : forall hd ts,
@@ -164,4 +225,17 @@ Proof.
   - destruct (rts <? h_txn hd) eqn:E; [apply Z.ltb_lt in E|apply Z.ltb_ge in E]; split; intro H; try discriminate; try reflexivity.
     + destruct H as [[H _]|[_ H]]; [discriminate|lia].
     + right. split; [reflexivity|exact E].
+Qed.
+
+(* for all schedules: nothing other handles do -- uncommitted, committed or autocommit -- changes
+   what an open transaction reads *)
+Lemma si_txn_reads_stable_l : forall sched s h,
+  in_txn h s -> forallb (fun p => negb (Nat.eqb (fst p) h)) sched = true ->
+  si_view h (si_run sched s) = si_view h s.
+Proof.
+  induction sched as [|[h' o] sched IH]; intros s h Hin Hall; [reflexivity|].
+  cbn [forallb fst] in Hall. apply andb_true_iff in Hall. destruct Hall as [H1 H2].
+  apply negb_true_iff in H1. apply Nat.eqb_neq in H1.
+  cbn [si_run]. destruct (si_snapshot_stable_l s h h' o (not_eq_sym H1) Hin) as [Hv Hin'].
+  rewrite IH; assumption.
 Qed.
